@@ -286,7 +286,8 @@ fn algebra_sweep() {
         for wk in 0..5 {
             let w: Option<DVector<f64>> = match wk { 0 => None, 1 => Some(DVector::from_fn(n, |i, _| 1.0 / (1.0 + i as f64))), 2 => Some(DVector::from_fn(n, |i, _| if i == 1 || i == 4 { 0.0 } else { 0.5 + 0.25 * i as f64 })),
                 3 => Some(DVector::from_element(n, 0.5)) /* one common weight (constant sigma): still a row scaling by 0.5 */, _ => Some(DVector::from_element(n, 1.0)) /* explicit unit weights */ };
-            for s in 1..=3usize {
+            // many right-hand sides once (S = 70: block-wise code paths, index arithmetic in S)
+            for s in (1..=3usize).chain(if wk == 1 && n == 8 { Some(70usize) } else { None }) {
                 let y = ydata(n, s);
                 let (a1, a2) = (vec![1.3, 4.0], vec![2.1, 6.5]);
                 let cfg = format!("for N={} M={} P={} S={} weights={} alpha={:?}", n, m, p, s, ["none", "1/(1+i)", "zeros at rows 1,4", "all 0.5", "all 1.0"][wk], a2);
